@@ -52,6 +52,7 @@ def setup(rep, tier):
     rep.minimum('R09.8', 1)
     rep.minimum('R09.9', 2)
     rep.minimum('R09.10', 2)
+    rep.minimum('R09.11', 2)
 
 
 def T_minmax(e):
@@ -660,7 +661,50 @@ def r09_9(rep, prog):
     return n
 
 
+# ------------------------------------------------------------------ R09.11
+def r09_11(rep, prog):
+    """the FEC branch of the packet decoder prepares the frame decoder exactly like the normal branch: every call that hands
+    packet bytes (not NULL) to the frame decoder is dominated by stores of the same set of packet-derived state fields
+    (`st->X = packet_X`: mode, bandwidth, frame size, coded channel count).  A field the FEC branch forgets is taken from
+    the last normally decoded packet - wrong as soon as the stream changed it inside the loss gap."""
+    from .. import roles
+    n = 0
+    for f in prog.functions_all:
+        if not f.file.startswith('src/opus_decoder'):
+            continue
+        cf = None
+        fd = {g.name for g in roles.frame_decoders(prog)}
+        sites = []
+        for c in f.calls():
+            if sx.callee_name(c) in fd and f.name not in fd and len(c[2]) > 1 and sx.int_val(sx.strip(c[2][1])) is None and sx.kind(sx.strip(c[2][1])) != 'cast':
+                sites.append(c)
+        if len(sites) < 2:
+            continue
+        cf = cfgm.CFG(f)
+        stores = [(b, i, x) for b, i, x in cf.find(lambda x: x[0] == 'assign' and sx.kind(sx.strip_paren(x[1])) == 'field' and sx.kind(sx.strip(x[2])) == 'local' and sx.strip(x[2])[1].startswith('packet_'))]
+        per = []
+        for c in sites:
+            pos = [(b, i) for b, i, s_ in cf.positions() if any(y is c for y in sx.walk(s_))]
+            if not pos:
+                continue
+            got = {sx.strip_paren(x[1])[3] for b, i, x in stores if cf.pos_dominates((b, i), pos[0])}
+            per.append((c, got))
+        allf = set().union(*[g for c, g in per]) if per else set()
+        for c, got in per:
+            n += 1
+            rep.functions.add(f.name)
+            inst = '%s:%s prepares the frame decoder with every packet-derived field (call at line %s)' % (prog.config, f.name, sx.line(c))
+            where = '%s:%s' % (f.file, sx.line(c))
+            if got == allf:
+                rep.holds('R09.11', inst, where, 'stores %s' % sorted(got))
+            else:
+                rep.violated('R09.11', inst, where, 'this call is not preceded by a store of %s, which the sibling branch sets from the packet: the frame is decoded with the value left by the last normally decoded packet' % sorted(allf - got),
+                             key='%s:frame-decoder-setup:%s' % (f.name, ','.join(sorted(allf - got))))
+    return n
+
+
 def check(rep, prog, tier):
+    r09_11(rep, prog)
     r09_9(rep, prog)
     r09_6(rep, prog)
     r09_7(rep, prog)
